@@ -1,5 +1,6 @@
-(* Extraction of the orchestrator transition system and its oracles (C04, C11).  ExtrOcamlBasic only. *)
+(* Extraction of the orchestrator transition system, its oracles (C04, C11) and the lock model.  ExtrOcamlBasic only. *)
 From Coq Require Import Extraction ExtrOcamlBasic.
-From Robsd Require Import Orch.OrchSpec.
+From Robsd Require Import Orch.OrchSpec Orch.RunLock.
 Extraction Language OCaml.
-Extraction "or_model.ml" oinit ostep orun main_step job_step spec_ok_trace spec_ok_account trap_exit Nat.pred.
+Extraction "or_model.ml" oinit ostep orun main_step job_step spec_ok_trace spec_ok_account trap_exit Nat.pred
+  lock_acquire lock_release attempt.
